@@ -11,6 +11,7 @@ import OFV.Proofs.C04Term
 import OFV.Proofs.C04Sum
 import OFV.Proofs.C04OneBody
 import OFV.Proofs.C04TwoBodyAll
+import OFV.Proofs.C04Iop2
 
 namespace OFV.C04
 open OFV OFV.Spec OFV.Model OFV.Model.C04 OFV.Sem
@@ -165,6 +166,21 @@ theorem jw_two_body_sound (tol : Rat) (p q r s : Nat) (c : GQ) (hok : jwTwoBodyO
       = GV.coeff (applyOp .fermion (Spec.C04.twoBodyOp p q r s c) [m]) [x] :=
   jwTwoBody_sound tol p q r s c hok m x
 
+/-- **`jordan_wigner(InteractionOperator)` is sound**: for every size `n` and every Hermitian pair of tensors
+(`one[q,p] = conj one[p,q]`, `two[s,r,q,p] = conj two[p,q,r,s]`, real or complex, no further symmetry
+assumed) the loops over index combinations with symmetrised coefficients (`_jordan_wigner_interaction_op`:
+diagonal one-body, pairs `p < q`, pairs of pairs) produce an operator that acts on every basis state like
+`const + Σ one[p,q] a†_p a_q + Σ two[p,q,r,s] a†_p a†_q a_r a_s` — i.e. like `jordan_wigner` of the equivalent
+FermionOperator (`jw_exact`) — on every exact run (`jwInteractionOpOk`: all helper calls and all outer
+`+=` exact; evaluated by the driver on every generated tensor). -/
+theorem jw_interaction_op_sound (tol : Rat) (n : Nat) (const : GQ) (one two : List GQ)
+    (h1 : ∀ p q, p < n → q < n → get1 n one q p = (get1 n one p q).conj)
+    (h2 : ∀ p q r s, p < n → q < n → r < n → s < n → get2 n two s r q p = (get2 n two p q r s).conj)
+    (hok : jwInteractionOpOk tol n const one two = true) (m x : Nat) :
+    GV.coeff (applyOp .qubit (jwInteractionOp tol n const one two) [m]) [x]
+      = GV.coeff (applyOp .fermion (Spec.C04.interactionOp n const one two) [m]) [x] :=
+  jwInteractionOp_sound tol n const one two h1 h2 hok m x
+
 /-! ### non-vacuity -/
 
 /-- the threshold the driver runs with satisfies the hypothesis of the theorems -/
@@ -196,5 +212,25 @@ example : jwTwoBodyOk Generated.eqTolerance 4 1 0 3 ⟨mkRat 3 4, -2⟩ = true
     ∧ jwTwoBodyOk Generated.eqTolerance 2 5 0 2 ⟨0, mkRat 1 8⟩ = true
     ∧ jwTwoBodyOk Generated.eqTolerance 3 1 1 3 ⟨-1, 0⟩ = true := by
   decide +kernel
+
+/-- a complex Hermitian 2-orbital InteractionOperator satisfying all hypotheses of `jw_interaction_op_sound` -/
+example :
+    let one : List GQ := [⟨1, 0⟩, ⟨1, 1⟩, ⟨1, -1⟩, ⟨-2, 0⟩]
+    let two : List GQ := [0, 0, 0, 0, 0, ⟨0, 1⟩, ⟨mkRat 3 2, 0⟩, 0, 0, ⟨mkRat 1 2, 0⟩, ⟨0, -1⟩, 0, 0, 0, 0, 0]
+    (∀ p q, p < 2 → q < 2 → get1 2 one q p = (get1 2 one p q).conj)
+    ∧ (∀ p q r s, p < 2 → q < 2 → r < 2 → s < 2 → get2 2 two s r q p = (get2 2 two p q r s).conj)
+    ∧ jwInteractionOpOk Generated.eqTolerance 2 ⟨mkRat 1 2, 0⟩ one two = true := by
+  refine ⟨?_, ?_, by decide +kernel⟩
+  · intro p q hp hq
+    have : p = 0 ∨ p = 1 := by omega
+    have : q = 0 ∨ q = 1 := by omega
+    rcases ‹p = 0 ∨ _› with rfl | rfl <;> rcases ‹q = 0 ∨ _› with rfl | rfl <;> decide +kernel
+  · intro p q r s hp hq hr hs
+    have : p = 0 ∨ p = 1 := by omega
+    have : q = 0 ∨ q = 1 := by omega
+    have : r = 0 ∨ r = 1 := by omega
+    have : s = 0 ∨ s = 1 := by omega
+    rcases ‹p = 0 ∨ _› with rfl | rfl <;> rcases ‹q = 0 ∨ _› with rfl | rfl <;>
+      rcases ‹r = 0 ∨ _› with rfl | rfl <;> rcases ‹s = 0 ∨ _› with rfl | rfl <;> decide +kernel
 
 end OFV.C04
